@@ -66,6 +66,16 @@ def attribute(run, trace, idx):
         return "C10", "element %s was delivered with metadata %s" % (ev.get("e"), ev.get("md"))
     if k == "CbEmit":
         return "C02", "result of element %s forwarded out of arrival order (or twice)" % ev.get("e")
+    if k in ("EmitDone", "FuncStart"):
+        # jobs are accepted (their function started, their emit completed) in arrival order; results are forwarded in the order of
+        # acceptance: an element accepted while an earlier one is still waiting has overtaken it
+        e = ev.get("e")
+        arrived = [x["e"] for x in trace[:idx - 1] if x["ev"] == "Arrive"]
+        accepted = {x["e"] for x in trace[:idx - 1] if x["ev"] in ("EmitDone", "FuncStart")}
+        waiting = [a for a in arrived if a < e and a not in accepted]
+        if waiting:
+            return "C03", ("%s of element %s while the earlier element(s) %s had not been accepted yet: it has overtaken them"
+                           % (k, e, waiting)), ["C02"]
     if k in ("FuncStart", "ObsQ", "EmitDone", "EmitRaised"):
         return "C03", "%s: more functions started / jobs accepted than the parallelism allows, or an emit completed too early" % k
     if k in ("Release", "FiredElsewhere", "Arrive"):
